@@ -32,12 +32,38 @@ PROPS["C16"] = dict(
          "coincide), or new lengths, or a grammar / mutated input; exhaustive over all histories of 2..3 (thorough 4) rounds "
          "from 15 inputs and 36 streams (one buffer refilled 12 / 24 times with a different record of the same shape); same oracle per call on what the memory holds NOW, plus: whatever was returned with newBuf=true in an "
          "earlier round still holds the bytes it held then. "
+         "In-place overwrite (same case type): at the end of every round each []byte that was returned with newBuf=true in "
+         "that round is overwritten by the harness, its owner (every byte up to the capacity flipped; strings are never "
+         "written), the newBuf=true decoders are applied to the same memory once more and the following rounds to whatever "
+         "comes next: per-call oracle as before ('a copy of a range of the input'), and the overwritten values keep what the "
+         "owner wrote (counted in history_newBuf_results_overwritten_in_place). "
+         "Long continuation runs (fourth case type, unit long_runs): hex head + RUN bytes of one value 80..ff (each says 'the "
+         "number goes on') + hex tail, built in place in one arena (no copy of the input), RUN = 2^20, 2^23, 3*2^23, 2^26 "
+         "(1..64 MiB; thorough nine sizes 2^20..2^26): at 2^20 (thorough: up to 2^22) head {none, 85, ff} x run byte {80, ff, "
+         "81} x tail {none = unterminated, 00, 7f, 01+2 bytes, 00+5 bytes}, at the larger sizes 80-run unterminated, 80-run + 00, "
+         "ff-run unterminated, 85 + 80-run + 00 + a body of 5; every Unmarshal function, cap == len and cap > len, per-call "
+         "oracle as above. A decoder whose stack or memory grows with the run does not panic, it kills the process (fatal "
+         "error: stack overflow is not recoverable): the driver reports signature process-crash, and the case that was "
+         "running is left as TestC16LongRuns-inflight-*.json in the replay directory. "
+         "First calls of a process (fifth case type, unit first_use): the test binary re-executes itself (child test "
+         "TestC16FirstUseChild, case in VERIF_XBIN_FIRSTUSE_CASE, the driver's environment without the stats/replay "
+         "variables) so that a concurrent case is THE VERY FIRST use of the library in a fresh process: for every Unmarshal "
+         "function x 11 small valid inputs (one-byte records 00/61/ff/80, the empty and a two-byte record, the numbers 5, "
+         "127, 128, 16383, eight bytes) 32 goroutines released together make that call on that input as their first call, "
+         "then the other functions (Rot = the function the goroutines start with); plus per function one process in which "
+         "11 goroutines start with it on the 11 different inputs; every case in 2 (thorough 6, plus 1 of a binary built with -race: unit first_use_race) fresh processes (counted in "
+         "first_use_child_processes); oracle = the concurrent case's (per call, and equal to the same call made alone "
+         "afterwards), evaluated in the child and reported by the parent; a child that dies with a Go panic / fatal error "
+         "whose trace runs through the library is signature first-use-process-died. "
          "Not asserted: rejection of over-long or >64-bit varints, decoded values, error texts. "
          "non-trivial = the leading varint terminates inside the input and its value (mod 2^64) is larger than the number of "
          "bytes that follow it or >= 2^31; a history is non-trivial when a later round changed the memory; "
          "distinct = FNV hash of the input bytes / of the history's JSON form",
     assumptions=["'sub-range of the input' is checked against in[0:len], not against the capacity",
                  "the Unmarshal functions are plain functions of their argument (no receiver, no documented state): 'for every byte string each Unmarshal function returns ...' is read as holding for a call whatever other Unmarshal calls are in progress on other goroutines, as long as nobody writes the input",
+                 "the first calls a process makes are calls like any other: a lazily initialised table / pool inside the library must be safe for concurrent first use",
+                 "a []byte returned with newBuf=true belongs to the caller, who may write every byte of it up to its capacity (buffer-reuse histories)",
+                 "an input of 64 MiB is an ordinary byte string: 'for every byte string each Unmarshal function returns without panicking' includes not exhausting the goroutine stack on it",
                  "the native fuzzing stage (thorough) uses a test binary built with -fuzz (coverage instrumentation) and is seeded with the hostile inputs"],
     units=[
         dict(name="exhaustive", run="^TestC16Exhaustive$", shards=(4, 16), timeout=(200, 600)),
@@ -47,6 +73,10 @@ PROPS["C16"] = dict(
         dict(name="history", run="^TestC16RapidHistory$", checks=(15000, 200000), shards=(2, 16), timeout=(200, 600)),
         dict(name="concurrent", run="^TestC16RapidConcurrent$", checks=(4000, 20000), shards=(2, 8), timeout=(200, 900),
              race=(False, True)),
+        dict(name="long_runs", run="^TestC16LongRuns$", shards=(4, 8), timeout=(200, 600)),
+        dict(name="first_use", run="^TestC16FirstUse$", shards=(2, 8), timeout=(200, 900)),
+        dict(name="first_use_race", run="^TestC16FirstUse$", enabled=(False, True), shards=8, timeout=(200, 900), race=(False, True),
+             env={"VERIF_XBIN_FIRSTUSE_TRIES": "1"}),
         dict(name="fuzz", run="^FuzzC16$", fuzz=(None, "^FuzzC16$"), enabled=(False, True), serial=True, shards=1, timeout=(200, 400),
              args=([], ["-test.fuzz=^FuzzC16$", "-test.fuzztime=120s", "-test.fuzzcachedir={rundir}/fuzzcache", "-test.parallel=16"]),
              env={"VERIF_STATS_PERPID": "1"}),
@@ -58,6 +88,7 @@ LEVEL_TEXT["C16"] = (
     "the input, zero consumed on error): every byte string up to length 2, every string up to length 10 over the "
     "extreme group bytes (length prefixes made of all-ones / all-zero groups, including 2^63-1 and 2^64-1), a "
     "grammar of hostile length prefixes with short bodies and with records of up to 256 KiB (enumerated: thorough up to "
-    "4 MiB) around every power of two, mutated valid encodings, the same inputs decoded by up to 8 goroutines at once and, in the thorough tier, "
+    "4 MiB) around every power of two, mutated valid encodings, the same inputs decoded by up to 8 goroutines at once, runs of 1 to 64 MiB of continuation "
+    "bytes, small valid inputs as the very first concurrent calls of a few hundred fresh processes and, in the thorough tier, "
     "native go fuzzing from the hostile seeds. No counterexample among the inputs counted in the evidence; not a proof for all byte strings."
 )
